@@ -10,7 +10,7 @@ RULE = ("Real loopback TCP. (a) Hypothesis-generated peer scripts (1-10 fragment
         "SO_RCVBUF None/4 KiB/64 KiB, idle timeout 50..300 ms, optional close()+connect()) against TcpTransport and TcpTransportAsync: each bulk_read(n) returns <= n bytes; the concatenation of "
         "all reads == the peer's byte stream; a read with nothing pending raises TcpTimeoutException after >= 0.8*timeout of wall time and the data the peer sends afterwards arrives intact; "
         "bulk_write reaches the peer -- also 100 KB / 1 MiB written through SO_SNDBUF=4096 to a slow reader with SO_RCVBUF=4096: the bytes the transport reported as sent (looping over its returned counts) are exactly what the peer receives after close(); close(); close() is harmless; connect() after close() works. (b) generated whole sessions (connect, shell/list/stat/pull/push ...) through AdbDevice(TcpTransport) / "
-        "AdbDeviceAsync(TcpTransportAsync) against a socket server running the device simulator (server-side fragmentation 1..64 KiB): results == the model's (== in-memory) results. "
+        "AdbDeviceAsync(TcpTransportAsync) against a socket server running the device simulator (server-side fragmentation 1..64 KiB): results == the model's (== in-memory) results; also pushes of 64 KiB .. 3 MiB through 4 KiB socket buffers to a slow reader (each message leaves in many pieces): the content arrives intact. "
         "(c) AdbDeviceTcp / AdbDeviceTcpAsync constructed with default_transport_timeout_s in {0.3, 0.6} and a banner: connect() to a device that never answers times out like the in-memory session (after about the default timeout: between 0.8x and 3x+3 s, the upper bound confirmed by a second run; the alternative would be read_timeout_s = 8 s), the banner is announced, a healthy connect+shell works. "
         "Non-trivial: >= 2 reads (a) / >= 2 operations (b). A peer that stops reading for 3 s in the middle of a 1 MiB write through 4 KiB buffers: no single bulk_write(..., 0.3) call on a socket connected with a timeout lasts longer than 2.4 s (confirmed by a second run). Apart from that and (c) only lower time bounds are asserted; a wall-clock watchdog expiry is 'inconclusive'. Distinct = case hash.")
 ASSUMPTIONS = ["kernel loopback TCP", "wall-clock: only lower bounds asserted (>= 0.8 * timeout)", "device simulator behind a socket for part (b)"]
@@ -23,6 +23,8 @@ def pair_part(check_id, tier, seed):
 def replay(part, case):
     if part == "session":
         return sockcheck.check_session(case)[0]
+    if part == "socket":
+        return sockcheck.check_push_case(case)[0]
     if part == "ctor":
         return sockcheck.check_ctor_case(case)[0]
     return sockcheck.check_transport(case)[0]
@@ -37,4 +39,6 @@ def run(tier, seed):
     col.merge(harness.enumeration_part("ctor", lambda sh, n: [c for i, c in enumerate(sockcheck.ctor_cases()) if i % n == sh], sockcheck.check_ctor_case))
     col.merge(harness.hypothesis_part("transport", sockcheck.peer_cases(), sockcheck.check_transport, 128 if quick else 3200, seed))
     col.merge(harness.hypothesis_part("session", sockcheck.session_cases(), sockcheck.check_session, 96 if quick else 2400, seed))
+    # sessions whose messages are far larger than the socket buffers (SO_SNDBUF = SO_RCVBUF = 4096, slow reader): every message goes out in many pieces
+    col.merge(harness.hypothesis_part("socket", sockcheck.push_cases(), sockcheck.check_push_case, 16 if quick else 240, seed))
     return harness.finish(ID, tier, seed, LEVEL, col, RULE, ASSUMPTIONS, t0)
